@@ -50,6 +50,9 @@ TECHNIQUE = "model-based / stateful property-based testing (Hypothesis-generated
 CONV_TOL = 1e-12   # conversion vs the same conversion of a pristine rebuild
 FAIL_TOL = 1e-10   # values after a refused in-place frame change (form round trip rounding)
 COV_TOL = 1e-9     # covariance after a frame change, relative to the largest entry
+TWIN_TOL = 1e-9    # same covariance conversion on source and copy, each term in units of its own sigmas
+TWIN_STEPS = ("QSW", "TNW", "EME2000")
+CLONE_TOL = 1e-10  # conversions involving an unpickled Frame (a clone of the registered one: name -> same name costs rounding)
 T0_MJD = 51544     # 2000-01-01
 
 
@@ -160,6 +163,11 @@ class Machine:
         self.seen = set()
         self.worst = 0.0
         self.worst_by = {}
+        self.cloned = set()      # members that went through pickle (their Frame objects are clones)
+        self.clone_op = False
+        self.made_at = {}        # (parent, child) -> step of the maker op
+        self.equiv = set()       # (parent, child) pairs made by a maker and not modified since
+        self.moved_rot = set()   # members whose covariance was moved in place to a rotating frame
         self.labels = []
         self.step = -1
 
@@ -209,6 +217,8 @@ class Machine:
         """(ii): the named object equals the model's expectation; shadow := what is observed"""
         actual = S.snap(self.pool[idx])
         exp = dict(expected)
+        if coord_tol == CONV_TOL and (self.clone_op or idx in self.cloned):
+            coord_tol = CLONE_TOL
         if coord_tol is not None and actual["coords"] != exp["coords"]:
             got, want = S.coords_of(actual), S.coords_of(exp)
             floor = np.where(np.abs(want) < 10.0, 1.0, 0.0)  # angles and ratios: absolute
@@ -288,10 +298,40 @@ class Machine:
             self.lib_exc(exc, f"{what}:copy(form='cartesian')")
             return False
         want = np.array(rebuild(s, self.dates[idx]).copy(form="cartesian"), dtype=float)
-        if not self.ratio(S.rel_err(got, want, 0.0), CONV_TOL):
+        if not self.ratio(S.rel_err(got, want, 0.0), CLONE_TOL if idx in self.cloned else CONV_TOL):
             self.add(f"inconsistent:{what}", f"object {idx} converts to {got.tolist()}, a pristine object with the same "
                                              f"form/frame/values to {want.tolist()}")
         return True
+
+    # -------- a copy behaves like its source
+
+    @staticmethod
+    def twin(o):
+        """deep throw-away duplicate (the pool is not disturbed)"""
+        return pickle.loads(pickle.dumps(o))
+
+    def twin_check(self, a, b, what):
+        """the same covariance conversions on (twins of) source a and copy b give the same numbers"""
+        if self.shadow[a]["cov"] is None or self.shadow[b]["cov"] is None:
+            return
+        try:
+            ta, tb = self.twin(self.pool[a]), self.twin(self.pool[b])
+            for frame in TWIN_STEPS:
+                ta.cov.frame = frame
+                tb.cov.frame = frame
+                err = S.cov_err(np.array(tb.cov, dtype=float), np.array(ta.cov, dtype=float))
+                if not self.ratio(err, TWIN_TOL):
+                    self.add(f"copy-diverges:{what}",
+                             f"covariance of object {b} ({what} of object {a}) converted to {frame}: differs from the "
+                             f"same conversion of its source by {err:.3g} sigma-units "
+                             f"(diag {np.diag(np.array(tb.cov, dtype=float)).tolist()} vs "
+                             f"{np.diag(np.array(ta.cov, dtype=float)).tolist()})", frame=frame, maker=what)
+                    return
+        except Exception as exc:
+            self.lib_exc(exc, f"twin:{what}")
+
+    def forget(self, idx):
+        self.equiv = {p for p in self.equiv if idx not in p}
 
     # -------- the operations
 
@@ -303,12 +343,27 @@ class Machine:
         self.origin.append((self.opname, parent))
         idx = len(self.pool) - 1
         self.compare_touched(idx, expected, coord_tol, cov_tol)
+        self.equiv.add((parent, idx))
+        self.made_at[(parent, idx)] = self.step
+        if self.opname == "pickle" or parent in self.cloned or self.clone_op:
+            self.cloned.add(idx)
+        if parent in self.moved_rot:
+            self.labels.append("cov-moved-to-rotating-then-copied")
+            if expected["cov"] is not None and expected["cov"][0] in H.ROTATING:
+                self.moved_rot.add(idx)
+        self.twin_check(parent, idx, self.opname)
         return idx
+
+    def pop_member(self):
+        for lst in (self.pool, self.shadow, self.dates, self.date_spec, self.origin):
+            lst.pop()
+        self.forget(len(self.pool))
+        self.moved_rot.discard(len(self.pool))
+        self.cloned.discard(len(self.pool))
 
     def drop_if_full(self):
         if len(self.pool) > 6:
-            for lst in (self.pool, self.shadow, self.dates, self.date_spec, self.origin):
-                lst.pop()
+            self.pop_member()
 
     def run_op(self, op):
         from beyond.errors import UnknownFormError, UnknownFrameError
@@ -319,6 +374,7 @@ class Machine:
         name = op["op"]
         self.opname = name
         i = op["i"] % len(self.pool)
+        self.clone_op = i in self.cloned or (name == "copy_same" and op["j"] % len(self.pool) in self.cloned)
         o = self.pool[i]
         s = self.shadow[i]
         touched = set()
@@ -373,8 +429,7 @@ class Machine:
                 touched.add(n)
                 if not self.convertible(n, "pickle"):
                     # not usable as a pool member: later ops on it would only repeat this failure
-                    for lst in (self.pool, self.shadow, self.dates, self.date_spec, self.origin):
-                        lst.pop()
+                    self.pop_member()
                     touched.discard(n)
             elif name == "as_orbit":
                 new = o.as_orbit(mkprop(op["prop"]))
@@ -389,6 +444,47 @@ class Machine:
                     new = o.copy()
                     exp = dict(s)
                 touched.add(self.new_member(new, exp, i))
+            elif name == "cov_copy":
+                if s["cov"] is not None:
+                    frame = op["frame"]
+                    t = self.twin(o)
+                    c = o.cov.copy(frame) if frame else o.cov.copy()
+                    if frame:
+                        t.cov.frame = frame
+                    if i in self.moved_rot:
+                        self.labels.append("cov-moved-to-rotating-then-copied")
+                    steps = (None,) + TWIN_STEPS
+                    for step in steps:
+                        if step:
+                            c.frame = step
+                            t.cov.frame = step
+                        got, want = np.array(c, dtype=float), np.array(t.cov, dtype=float)
+                        fn = (S._name(c.frame), S._name(t.cov.frame))
+                        err = S.cov_err(got, want)
+                        if fn[0] != fn[1] or not self.ratio(err, TWIN_TOL):
+                            self.add("copy-diverges:cov_copy",
+                                     f"cov.copy({frame!r}) then -> {step}: frame {fn[0]}, differs by {err:.3g} sigma-units "
+                                     f"from the in-place conversion of the source (frame {fn[1]})", frame=step,
+                                     maker="cov_copy")
+                            break
+            elif name == "set_cov_frame":
+                touched.add(i)
+                exp = dict(s)
+                if s["cov"] is not None:
+                    frame = op["frame"]
+                    via_new = np.array(self.twin(o).cov.copy(frame=frame), dtype=float)
+                    o.cov.frame = frame
+                    got = np.array(o.cov, dtype=float)
+                    err = S.cov_err(got, via_new)
+                    if not self.ratio(err, TWIN_TOL):
+                        self.add("cov-inplace-vs-copy", f"cov.frame = {frame!r} in place differs by {err:.3g} sigma-units "
+                                                        f"from cov.copy(frame={frame!r})", frame=frame)
+                    exp["cov"] = (frame, S.hexof(got))
+                    if frame in H.ROTATING and s["cov"][0] != frame:
+                        self.moved_rot.add(i)
+                    elif frame not in H.ROTATING:
+                        self.moved_rot.discard(i)
+                self.compare_touched(i, exp)
             elif name == "set_form":
                 o.form = arg("form", op["form"])
                 touched.add(i)
@@ -397,6 +493,11 @@ class Machine:
                 o.frame = arg("frame", op["frame"])
                 touched.add(i)
                 self.compare_touched(i, conv_expected(frame=op["frame"]), CONV_TOL, COV_TOL)
+                if s["cov"] is not None and s["cov"][0] == s["frame"] and s["frame"] != op["frame"]:
+                    if op["frame"] in H.ROTATING:
+                        self.moved_rot.add(i)
+                    else:
+                        self.moved_rot.discard(i)
             elif name == "set_coord":
                 k = op["k"]
                 cur = S.coords_of(s).copy()
@@ -494,6 +595,10 @@ class Machine:
         for idx in touched:
             if idx < len(self.pool):
                 self.access(idx)
+        if name in H.MUTATORS:
+            self.forget(i)
+            if name in ("attach_cov", "del_cov"):
+                self.moved_rot.discard(i)
         self.drop_if_full()
         self.labels.append(name)
 
@@ -562,6 +667,11 @@ def collect(case):
         m.foreign(idx, S.foreign_names(m.shadow[idx]["form"]))
         m.convertible(idx, "end")
     m.compare_others(set(), 0)
+    # a copy nobody has modified since still behaves like its source
+    # (right after the maker this was checked already: only pairs with later ops in between)
+    for a, b in sorted(m.equiv):
+        if a < len(m.pool) and b < len(m.pool) and m.made_at.get((a, b), -1) < len(case["ops"]) - 1:
+            m.twin_check(a, b, f"{m.origin[b][0]}")
     return m
 
 
@@ -634,5 +744,5 @@ _assume_for_development()
 FACETS = [
     Facet("histories", lambda s, t: H.history(), check, setup=setup,
           rule="a maker (copy / pickle / as_orbit ...) followed by a mutation, or a refused op followed by a conversion",
-          quick=(8, 500), thorough=(16, 5000)),
+          quick=(16, 250), thorough=(16, 4000)),
 ]
